@@ -30,6 +30,11 @@ NAME_CLASSES = {
     "quote-at-end": '15"',
     "quote-at-both-ends": '"pro" model',
     "apostrophes": "'q'",
+    "digits": "64",
+    "number-like": "1e3",
+    "leading-blank": " lead",
+    "trailing-blank": "trail ",
+    "case-variant": "alpha_1",
     "quoted-plain": '"Alpha"',
     "keyword": "or",
     "opword": "AND",
@@ -98,14 +103,21 @@ def kind_model(mb: ModelBuilder, ds: Iterable[D], names: Optional[list[str]] = N
 
 
 def name_model(mb: ModelBuilder, name: str, in_ctc: bool = True, as_root: bool = False) -> AObj:
+    """A feature carrying `name` next to features whose names differ from it only in letter case /
+    surrounding blanks (distinct features!), used in two constraints of the same shape."""
     root = mb.feature(name if as_root else "Root")
     a = mb.feature("Other" if as_root else name)
     b = mb.feature("Plain")
     mb.relation(root, [a], 1, 1)
     mb.relation(root, [b], 0, 1)
+    twin = name.swapcase() if name.swapcase() != name else name + "X"
+    if not as_root and twin not in ("Root", "Plain", "Other", name):
+        mb.relation(root, [mb.feature(twin)], 0, 1)
     ctcs = []
     if in_ctc:
         ctcs.append(mb.constraint("c0", mb.node(mb.op("IMPLIES"), mb.node(name), mb.node("Plain"))))
+        if not as_root and twin not in ("Root", "Plain", "Other", name):
+            ctcs.append(mb.constraint("c1", mb.node(mb.op("IMPLIES"), mb.node(twin), mb.node("Plain"))))
     return mb.model(root, ctcs)
 
 
